@@ -253,6 +253,7 @@ func builtinDefType(env *lisp.LEnv, args *lisp.LVal) *lisp.LVal {
 		return res
 	}
 	if res != nil {
+		res = declaredValidator(res)
 		// BUG:  A regular function should not call PutGlobal in this way
 		// because functions aren't supposed to operate in the caller's lexical
 		// environment, but builtins don't get a lexical environment currently.
@@ -317,7 +318,25 @@ func builtinMakeValidator(env *lisp.LEnv, args *lisp.LVal) *lisp.LVal {
 			return applyConstraint(env, inner, input)
 		})
 	}
+	if res.Type != lisp.LError {
+		res = declaredValidator(res)
+	}
 	return res
+}
+
+// declaredValidator is what s:deftype and s:make-validator hand out: it
+// accepts exactly what v accepts and answers () when it does.  The type
+// argument may itself be a constraint, and a key constraint answers with its
+// key name (for s:no-other-keys); without this that name came back from
+// s:validate where every other declared type answers ().
+func declaredValidator(v *lisp.LVal) *lisp.LVal {
+	// NB these aren't normal functions - they aren't looking for an array of args
+	return newValidator(lisp.Formals("input"), func(env *lisp.LEnv, input *lisp.LVal) *lisp.LVal {
+		if r := applyConstraint(env, v, input); r.Type == lisp.LError {
+			return r
+		}
+		return lisp.Nil()
+	})
 }
 
 // finds the correct validation handler for the type
